@@ -534,4 +534,11 @@ def r3(ctx: Ctx, roles) -> None:
         ctx.ob("C09.R3", rep, "records the reported error itself", len(a) == 1 and isinstance(a[0], ast.Name) and a[0].id in rep.param_names(), f"{[norm(x) for x in a]}")
     # readers
     readers = {fn.qualname for fn in ctx.repo.funcs_in("connection") for n in own_nodes(fn.node) if isinstance(n, ast.Attribute) and n.attr == "_fatal_exception" and isinstance(n.ctx, ast.Load)}
+    # first cause also means: a framing error already visible in the buffered bytes is recorded when those
+    # bytes are processed, not after the socket error that follows (requires-encryption must not be masked)
+    from .c04 import preamble_before_giveup
+
+    pdr = ctx.repo.func("_frame_helper.plain_text", "APIPlaintextFrameHelper.data_received")
+    early = preamble_before_giveup(ctx, pdr)
+    ctx.ob("C09.R3", pdr, "a wrong framing marker is reported as soon as its byte is buffered (before any give-up return)", not early, f"return at {early[:2]} precedes the preamble test: the EOF/reset that follows becomes the recorded first cause")
     ctx.ob("C09.R3", "connection:APIConnection", "closer and wrapper read the recorded cause", {roles.closer.qualname, "APIConnection._wrap_fatal_connection_exception"} <= readers, f"readers: {sorted(readers)}")
